@@ -5,6 +5,7 @@ package main
 import (
 	"fmt"
 	"go/types"
+	"runtime"
 	"sort"
 	"strings"
 
@@ -91,6 +92,13 @@ func (r *Run) enter(fn *ssa.Function) {
 
 func (r *Run) step(fr *frame, instr ssa.Instruction) {
 	r.steps++
+	if r.steps&0xfffff == 0 {
+		var ms runtime.MemStats
+		runtime.ReadMemStats(&ms)
+		if ms.HeapAlloc > uint64(r.cfg.MemLimitMB)<<20 {
+			panic(pathEnd{kind: "UNWIND", msg: fmt.Sprintf("memory bound %d MiB exceeded in %s", r.cfg.MemLimitMB, fr.fn)})
+		}
+	}
 	if r.steps > r.cfg.MaxSteps {
 		panic(pathEnd{kind: "UNWIND", msg: fmt.Sprintf("step budget %d exhausted in %s", r.cfg.MaxSteps, fr.fn)})
 	}
